@@ -195,6 +195,9 @@ def selStochasticUniversalSampling(individuals, k, fit_attr="fitness"):
     This function uses the :func:`~random.uniform` function from the python base
     :mod:`random` module.
     """
+    if k == 0:
+        return []
+
     s_inds = sorted(individuals, key=attrgetter(fit_attr), reverse=True)
     sum_fits = sum(getattr(ind, fit_attr).values[0] for ind in individuals)
 
